@@ -217,7 +217,7 @@ func (f *flower) flow(v ssa.Value, acc litSet, depth int) (bool, litSet) {
 					continue
 				}
 				var callee *ssa.Function
-				if sc := c.StaticCallee(); sc != nil {
+				if sc := f.P.Callee(c); sc != nil {
 					callee = sc
 				}
 				if callee != nil && f.P.IsProductFunc(callee) && len(callee.Blocks) > 0 && ai < len(callee.Params) {
@@ -417,7 +417,7 @@ func (P *Program) StaticClosure(fn *ssa.Function) []*ssa.Function {
 		allInstrs(f, func(b *ssa.BasicBlock, ins ssa.Instruction) {
 			switch x := ins.(type) {
 			case ssa.CallInstruction:
-				if c := x.Common().StaticCallee(); c != nil {
+				if c := P.Callee(x.Common()); c != nil {
 					walk(c)
 				}
 			case *ssa.MakeClosure:
